@@ -15,7 +15,9 @@ def lit(b):
     return b"{%d}\r\n%s" % (len(b), b)
 
 
-TEXTS = [None, b"done", b"", b'with "quotes" and \\ backslash', b"\xc3\xa9t\xc3\xa9", b"(not a code)", b"{3}", b"OK NO BYE", b"two\r\nlines", b"near ${1} {2} end"]
+TEXTS = [None, b"done", b"", b'with "quotes" and \\ backslash', b"\xc3\xa9t\xc3\xa9", b"(not a code)", b"{3}", b"OK NO BYE", b"two\r\nlines", b"near ${1} {2} end",
+         # a text that itself ends with line ends (a compile report): they are part of the text
+         b"script errors:\r\nline 1: syntax error\r\n", b"ends with lf\n", b"cr at the end\r", b"blank line after\r\n\r\n"]
 CODES = [None, b"QUOTA", b"QUOTA/MAXSIZE", b"NONEXISTENT", b"ACTIVE", b"ALREADYEXISTS", b"TRYLATER", b"WARNINGS", b'TAG "abc"', b'TAG "a)b\\"c"', b"x-vendor/sub-code_1"]
 
 
@@ -63,6 +65,21 @@ def cases(r, n_status=6):
         for st in (b"OK", b"NO", b"BYE"):
             for line, code, text in status_lines(r, st, n_status):
                 out.append((op, args, line, {"status": st.decode(), "code": code, "text": text}))
+    # every text of the table at least once per status, quoted and as a literal, with and without a code — whatever the sample
+    # above happened to pick (the operation rotates)
+    k = 0
+    for st in (b"OK", b"NO"):
+        for text in TEXTS:
+            if text is None:
+                continue
+            for code in (None, b"QUOTA/MAXSIZE"):
+                for enc in ("q", "l"):
+                    if enc == "q" and (b"\r" in text or b"\n" in text):
+                        continue
+                    line = st + (b" (" + code + b")" if code else b"") + b" " + (q(text) if enc == "q" else lit(text)) + b"\r\n"
+                    op, args = one[k % len(one)]
+                    k += 1
+                    out.append((op, args, line, {"status": st.decode(), "code": code, "text": text}))
     for body in BODIES:
         for line, code, text in status_lines(r, b"OK", 2):
             out.append(("getscript", ("n",), lit(body) + b"\r\n" + line, {"status": "OK", "body": body}))
